@@ -10,8 +10,12 @@ an involution (DESIGN.md section 4 C06, Appendix A.13, Appendix D).
    Every initial state of those runs is built as a real PageLayout, exported with to_altoxml_string, parsed, re-imported
    with from_altoxml_string; AltoExport_Trace runs the machine on the recorded input and judges the recorded file.
 """
+import json
 import os
 import random
+import subprocess
+import sys
+import tempfile
 
 from .. import alto_common as A
 from ..core import pmap, MachineryFailure
@@ -28,7 +32,7 @@ ALTO_INVS = ["NeverFails", "LinesOnceInOrder", "TextPreserved", "SegmentationsAg
 CLAUSES = {1: "export-raises", 2: "blocks", 4: "lines-once-in-order", 8: "words", 16: "geometry-not-integer",
            32: "word-confidence-range", 64: "printspace-bbox", 128: "margins-cover", 256: "reimport-words"}
 CLAUSE_TEXT = {
-    1: "to_altoxml_string raised",
+    1: "to_altoxml_string / to_altoxml raised (or the file written by to_altoxml is not the well-formed XML file it declares to be)",
     2: "TextBlock elements do not match the regions (count / order)",
     4: "a non-blank line at or above the requested confidence is missing, or a line appears twice / out of layout order",
     8: "String contents differ from the whitespace-separated words of the transcription (converted to logical order on "
@@ -37,8 +41,101 @@ CLAUSE_TEXT = {
     32: "a WC attribute lies outside [0, 1]",
     64: "PrintSpace is not the bounding box of the text blocks",
     128: "PrintSpace and the four margins do not cover the page",
-    256: "from_altoxml_string failed or returned other words than the exported ones",
+    256: "from_altoxml_string / from_altoxml failed or returned other words than the exported ones",
 }
+
+# ---- round 9: the same pages in the forms and environments real use brings them in (every variant is recorded in the ordinary trace
+# format and judged by the unchanged clauses of AltoExport_Trace)
+#   gen = 2         export -> import -> EXPORT: the page from_altoxml_string rebuilt (region outlines are nested lists, lines without
+#                   posteriors) is exported, parsed and re-imported as a page of its own
+#   geom = reglist  region outlines as nested lists (the form from_altoxml gives them) around lines WITH posteriors: a layout read
+#                   from ALTO whose lines were then recognised
+#   via = file      the file variant to_altoxml(path) / from_altoxml(path): the trace is read off the bytes of the written file
+#   env = C-ascii   ... in a child process whose locale encoding is ASCII (LC_ALL=C, UTF-8 mode off: a legacy POSIX locale; the
+#                   situation of any process whose preferred encoding is not UTF-8, e.g. a Windows code page)
+#   env = posix-utf8mode   ... in a child process with LC_ALL=POSIX and Python's UTF-8 mode switched on (thorough tier)
+STRIDE_GEN2, STRIDE_REGLIST, STRIDE_FILE = 7, 17, 31          # primes: co-prime with the number of situations / thresholds
+CHILD_ENVS = {"C-ascii": {"LC_ALL": "C", "PYTHONUTF8": "0", "PYTHONCOERCECLOCALE": "0"},
+              "posix-utf8mode": {"LC_ALL": "POSIX", "PYTHONUTF8": "1"}}
+
+
+def variant_cases(cases):
+    out = []
+    nfile = 0
+    for i, c in enumerate(cases):
+        if i % STRIDE_GEN2 == 3:
+            out.append(dict(c, gen=2))
+        if i % STRIDE_REGLIST == 5:
+            out.append(dict(c, geom="reglist"))
+        if c["minconf"] == 0:
+            nfile += 1
+            if nfile % STRIDE_FILE == 11:
+                out.append(dict(c, via="file"))
+    return out
+
+
+def _non_ascii(case):
+    return any(ord(ch) > 127 for blk in case["blocks"] for ln in blk["lines"] for ch in ln["concrete"])
+
+
+def _spread(items, n):
+    if len(items) <= n:
+        return list(items)
+    return [items[(2 * k + 1) * len(items) // (2 * n)] for k in range(n)]
+
+
+def child_selection(pool, env, n_non_ascii, n_ascii):
+    """file-variant cases for a child process: pages of the families above with non-ASCII transcriptions (Arabic letters, accented /
+    astral characters, NBSP / thin / ideographic space) and a few pure-ASCII ones, evenly spread over the pool"""
+    pool = [c for c in pool if c["minconf"] == 0 and any(ln["concrete"].strip() for blk in c["blocks"] for ln in blk["lines"])]
+    sel = _spread([c for c in pool if _non_ascii(c)], n_non_ascii) + _spread([c for c in pool if not _non_ascii(c)], n_ascii)
+    return [dict(c, via="file", env=env) for c in sel]
+
+
+def run_child(ctx, cases, env_name):
+    """executes the cases in a fresh interpreter started in the process environment `env_name`; returns (traces, environment
+    the child reported)"""
+    wd = tempfile.mkdtemp(prefix="child_", dir=ctx.workdir)
+    inp, outp = os.path.join(wd, "cases.json"), os.path.join(wd, "traces.json")
+    with open(inp, "w", encoding="utf-8") as fh:
+        json.dump(cases, fh)
+    env = {k: v for k, v in os.environ.items()
+           if not (k.startswith("LC_") or k in ("LANG", "LANGUAGE", "PYTHONUTF8", "PYTHONIOENCODING", "PYTHONCOERCECLOCALE"))}
+    env.update(CHILD_ENVS[env_name])
+    cmd = [sys.executable, "-W", "ignore", "-c", "from harness import alto_common as A; A.child_main()", inp, outp, wd]
+    try:
+        res = subprocess.run(cmd, env=env, stdout=subprocess.PIPE, stderr=subprocess.STDOUT, timeout=900 + len(cases))
+    except subprocess.TimeoutExpired:
+        raise MachineryFailure("child process (%s) did not finish %d file exports in time" % (env_name, len(cases)))
+    if res.returncode != 0 or not os.path.exists(outp):
+        raise MachineryFailure("child process (%s) failed with exit %s: %s" % (
+            env_name, res.returncode, res.stdout.decode("utf-8", "replace")[-1500:]))
+    with open(outp, encoding="utf-8") as fh:
+        rep = json.load(fh)
+    return rep["traces"], {k: rep[k] for k in ("encoding", "utf8_mode", "fs_encoding")}
+
+
+def execute(ctx, cases):
+    """real executions for a list of cases (in-process, in parallel; cases with "env" in a child process of that environment).
+    Returns the (case, trace) pairs that were recorded - a second-generation case whose first generation left no rebuilt page
+    records nothing, its first generation is judged as the case of its own that it is."""
+    A.SCRATCH = ctx.workdir
+    traces = [None] * len(cases)
+    local = [i for i, c in enumerate(cases) if not c.get("env")]
+    for i, t in zip(local, pmap(_alto_one, [cases[i] for i in local], procs=PROCS)):
+        traces[i] = t
+    for env_name in sorted({c["env"] for c in cases if c.get("env")}):
+        idx = [i for i, c in enumerate(cases) if c.get("env") == env_name]
+        got, found = run_child(ctx, [cases[i] for i in idx], env_name)
+        ctx.notes.setdefault("child_environments", {})[env_name] = dict(found, cases=len(idx))
+        if env_name == "C-ascii" and found["encoding"].lower().replace("-", "") in ("utf8", "utf_8"):
+            ctx.assume("the child process started with LC_ALL=C and UTF-8 mode off still reported the preferred encoding %s: the "
+                       "non-UTF-8 environment could not be established on this machine" % found["encoding"])
+        for i, t in zip(idx, got):
+            traces[i] = t
+    keep = [i for i, t in enumerate(traces) if t is not None]
+    ctx.notes["second_generation_not_recorded"] = ctx.notes.get("second_generation_not_recorded", 0) + len(cases) - len(keep)
+    return [cases[i] for i in keep], [traces[i] for i in keep]
 
 
 # ================================================================================================ Arabic order
@@ -223,30 +320,42 @@ def _flags(case):
 
 def signature(case, trace, bit):
     f = _flags(case)
+    pre = ("reexport/" if case.get("gen") == 2 else "") + ("file-" if case.get("via") == "file" else "")
+    post = ("/list-outline" if case.get("geom") == "reglist" else "") + ("/locale-" + case["env"] if case.get("env") else "")
     if bit == 1:
-        exc = trace["outcome"].split(":", 1)[-1]
-        sig = "export-raises-" + exc
+        kind, exc = (trace["outcome"].split(":", 1) + [""])[:2]
+        sig = ("export-unreadable-" if kind == "unreadable" else "export-raises-") + exc
         if exc == "IndexError" and f["ws"]:
             sig += "/white-space-other-than-U+0020"
-        if exc == "AttributeError" and f["nologits"]:
+        if exc == "AttributeError" and f["nologits"] and case.get("gen") != 2:
             sig += "/chars-without-logits"
-        return sig
+        return pre + sig + post
     sig = CLAUSES[bit]
     if bit == 8:
         if f["arabic"]:
             sig += "/arabic-line"
         if f["ws"]:
             sig += "/white-space-other-than-U+0020"
-    return sig
+    return pre + sig + post
 
 
 def describe(case, trace):
     lines = ["%r[%s%s]" % (ln["concrete"], ln["sit"], ", %d frames" % ln["frames"] if ln.get("frames") else "")
              for blk in case["blocks"] for ln in blk["lines"]]
     got = [["".join(it["c"]) if it["k"] == "S" else "<SP>" for it in ln["items"]] for blk in trace["obs"]["blocks"] for ln in blk["lines"]]
-    return "page %dx%d, block rects %s, lines %s, min_line_confidence %.2f -> outcome %s, exported %s, print space %s" % (
-        case["W"], case["H"], [blk["rect"] for blk in case["blocks"]], lines, case["minconf"] / 1e6, trace["outcome"], got,
-        trace["obs"]["geo"]["ps"])
+    how = ""
+    if case.get("geom") == "reglist":
+        how += " [region outlines given as nested lists]"
+    if case.get("via") == "file":
+        how += " [file variant to_altoxml(path) / from_altoxml(path)%s]" % (
+            " in a child process with %s" % " ".join("%s=%s" % kv for kv in sorted(CHILD_ENVS[case["env"]].items()))
+            if case.get("env") else "")
+    if case.get("gen") == 2:
+        how += " [SECOND export: of the page from_altoxml_string rebuilt from the first export (region outline: %s), texts %r]" % (
+            trace.get("gen2", {}).get("region_outline"), trace.get("gen2", {}).get("texts"))
+    return "page %dx%d, block rects %s, lines %s, min_line_confidence %.2f%s -> outcome %s, exported %s, print space %s, re-import %s" % (
+        case["W"], case["H"], [blk["rect"] for blk in case["blocks"]], lines, trace["minconf"] / 1e6, how, trace["outcome"], got,
+        trace["obs"]["geo"]["ps"], trace["imp_outcome"])
 
 
 def alto_judge(ctx, cases, traces, label, pending=None):
@@ -300,13 +409,14 @@ def emit_balanced(ctx, pending):
 def _nontrivial(case):
     n = sum(len(ln["concrete"].split()) for blk in case["blocks"] for ln in blk["lines"])
     if n >= 2 or len(case["blocks"]) >= 2:
-        return (case["cfg"], case["minconf"], tuple((tuple(blk["rect"]), tuple((ln["concrete"], ln["sit"]) for ln in blk["lines"]))
-                                                   for blk in case["blocks"]))
+        return (case["cfg"], case["minconf"], case.get("gen", 1), case.get("geom", ""), case.get("via", ""), case.get("env", ""),
+                tuple((tuple(blk["rect"]), tuple((ln["concrete"], ln["sit"]) for ln in blk["lines"])) for blk in case["blocks"]))
     return None
 
 
 def alto_part(ctx, pending):
     cfgs = alto_cfgs(ctx)
+    child_pool = []
     for cfg in cfgs:
         # the "blocks" families exist for the print-space clauses: their single line takes the fallback branch, so the
         # aligned-branch actions are never taken there (covered by the line / page families) - no vacuity report for them;
@@ -327,7 +437,9 @@ def alto_part(ctx, pending):
                 cfg["name"], len(cases), res["init"], cfg["MaxBlocks"]))
         for v in range(cfg["variety"]):
             cases += enumerate_cases(cfg, random.Random(ctx.seed * 7919 + v), sits=cfg.get("variety_sits"))
-        traces = pmap(_alto_one, cases, procs=PROCS)
+        child_pool += cases
+        cases = cases + variant_cases(cases)
+        cases, traces = execute(ctx, cases)
         for c in cases:
             ctx.count(1, _nontrivial(c))
         ctx.sample({"module": "AltoExport", "config": cfg["name"], "case": cases[len(cases) // 2],
@@ -358,7 +470,19 @@ def alto_part(ctx, pending):
     ltraces = [_alto_one(c) for c in long_cases]
     for c in long_cases:
         ctx.count(1, ("long", c["blocks"][0]["lines"][0]["frames"], c["blocks"][0]["lines"][0]["concrete"], c["minconf"]))
-    alto_judge(ctx, long_cases, ltraces, "long lines (> 1000 frames)", pending)
+    # environment: the file variant of the export in a process whose locale encoding is not UTF-8 (sampled from the families above:
+    # the page machine does not depend on the process environment, the trace layer judges the written file like any other export)
+    quick = ctx.tier == "quick"
+    child_cases = child_selection(child_pool, "C-ascii", 160 if quick else 600, 40 if quick else 100)
+    if not quick:
+        child_cases += child_selection(child_pool[::3], "posix-utf8mode", 200, 40)
+    child_cases, ctraces = execute(ctx, child_cases)
+    for c in child_cases:
+        ctx.count(1, _nontrivial(c) or ("file", c["env"], json.dumps(c["blocks"], sort_keys=True)))
+    ctx.sample({"module": "AltoExport", "config": "file export in a child process", "case": child_cases[0], "trace": ctraces[0]},
+               limit=6)
+    alto_judge(ctx, long_cases + child_cases, ltraces + ctraces,
+               "long lines (> 1000 frames) + file export in another process environment", pending)
     # Legacy self-tests: each defect of the original tree must be visible to TLC on the smallest suitable family
     small_line = dict(cfgs[0], Mode="line", Classes=["a", "s", "w"], MaxLen=3, Situations=["peaky", "nochars", "nologits"],
                       MaxBlocks=1, MaxLines=1, minconfs=[0], GridW=3, GridH=3)
@@ -381,7 +505,11 @@ def run(ctx):
                "pages of <= 3 blocks on a grid of 40-pixel units, <= 2 lines per block, well-formed baselines / polygons / heights",
                "line confidences are compared with the requested threshold on the millionth grid (floor), which is exact for the "
                "thresholds used (0, 0.5, 0.7, 1.0)",
-               "characters that cannot be written to XML (control characters) are outside the quantifier")
+               "characters that cannot be written to XML (control characters) are outside the quantifier",
+               "variants (round 9): every %dth case exported a second time after export -> import, every %dth with region outlines as "
+               "nested lists, every %dth threshold-0 case through the file variant to_altoxml / from_altoxml; 200 (thorough: 700 + "
+               "240) file exports in a child process with LC_ALL=C and UTF-8 mode off (thorough also LC_ALL=POSIX with UTF-8 mode "
+               "on); file names are ASCII" % (STRIDE_GEN2, STRIDE_REGLIST, STRIDE_FILE))
     pending = []
     arabic_part(ctx, pending)
     alto_part(ctx, pending)
@@ -400,6 +528,6 @@ def replay(ctx, case):
         arabic_judge(ctx, case["cfg"], [tr], "replay")
         ctx.count(1, case["concrete"])
         return
-    tr = _alto_one(case["case"])
+    cases, traces = execute(ctx, [case["case"]])
     ctx.count(1, "replay")
-    alto_judge(ctx, [case["case"]], [tr], "replay")
+    alto_judge(ctx, cases, traces, "replay")
